@@ -182,6 +182,13 @@ def _run(V, work, tier):
         sessions.append(("random%d" % i, [P.src(static_refs(c01.random_program(rnd)))], False, None))
     for i in range(120 if thorough else 30):
         sessions.append(("xnames%d" % i, [P.src(xnames_program(rnd))], False, None))
+    # literal spellings the compact printer must carry over unchanged in VALUE (exponent forms, trailing zeros, escapes)
+    LITS = ["1e10", "2.50e-10", "1.5e20", "3e0", "100.0", "1.0", "0.10", "-0.0", "1e-7", "12300.0", "1E3", "6.02e+23", "0x10", "-5", "007",
+            '"a\\nb"', '"q\\"q"', "'sym", ":kw", "'(1 2.0 3e2)", '"tab\\there"']
+    for i in range(8 if thorough else 3):
+        picks = rnd.sample(LITS, 8)
+        src = "(defun lits (a) (list a %s))\n(probe 'lits (lits 0))\n(probe 'sum (+ %s))\n" % (" ".join(picks), " ".join(x for x in picks if x[0] not in "\"':"))
+        sessions.append(("literals%d" % i, [src], False, None))
     OPTS = [("default", {"preserve_params": True}), ("rename-params", {"preserve_params": False}),
             ("rename-exports", {"preserve_params": True, "rename_exports": True}), ("exclusions", {"preserve_params": True, "exclusions": ["f0", "x", "helper", "tmp"]})]
     mrecs, meta = [], {}
